@@ -271,7 +271,7 @@ theorem gainOfIndex_range_all : ∀ n ∈ List.range 64, gainOfIndexOkAt (n : In
 
 /-- Gain of every quantiser level `0 ≤ p ≤ 63`: no wrap, and `silk_log2lin` is entered below its
     saturation threshold (3967 is never reached: the largest argument is 3923). -/
-theorem gainOfIndex_range (p : Int) (h0 : 0 ≤ p) (h1 : p ≤ 63) :
+theorem gainOfIndex_nowrap (p : Int) (h0 : 0 ≤ p) (h1 : p ≤ 63) :
     (∀ v ∈ gainOfIndexTrace p, I32 v) ∧
     gainOfIndex p = log2linExact (min (SilkNlsf.gainInvScaleQ16 * p / 65536 + SilkNlsf.gainOffset) 3967) ∧
     min (SilkNlsf.gainInvScaleQ16 * p / 65536 + SilkNlsf.gainOffset) 3967 < 3967 := by
@@ -317,7 +317,7 @@ def pitchTrace (tab : List Int) (cbkSize : Nat) (lagIndex contour fsKHz : Int) (
   let minLag := SilkNlsf.peMinLagMs * fsKHz
   let maxLag := SilkNlsf.peMaxLagMs * fsKHz
   [minLag, maxLag, minLag + lagIndex] ++
-    (List.range nb).flatMap fun k =>
+    (List.range nb).flatMap fun (k : Nat) =>
       let idx := (k : Int) * (cbkSize : Int) + contour
       let c := tab.getD idx.toNat 0
       [idx, minLag + lagIndex + c, limit (minLag + lagIndex + c) minLag maxLag]
@@ -370,7 +370,7 @@ theorem decodePitch_range (lagIndex contour fs : Int) (nb : Nat) (tab : List Int
       have hkc : (k : Int) * (cbk : Int) ≤ 3 * 34 := by
         have : (cbk : Int) ≤ 34 := by exact_mod_cast hcbk.1
         nlinarith
-      have hkc0 : 0 ≤ (k : Int) * (cbk : Int) := by positivity
+      have hkc0 : 0 ≤ (k : Int) * (cbk : Int) := Int.mul_nonneg (Int.natCast_nonneg k) (Int.natCast_nonneg cbk)
       have hcv : -128 ≤ tab.getD ((k : Int) * (cbk : Int) + contour).toNat 0 ∧
           tab.getD ((k : Int) * (cbk : Int) + contour).toNat 0 ≤ 127 := by
         rw [List.getD_eq_getElem?_getD]
